@@ -1037,4 +1037,216 @@ theorem mol2_runLoop_file (hc : Mol2CountsOk fc) (ha : ∀ a, pa (fa a) = some a
       mol2Pre_inert (by simp at hf ⊢; omega)
 end mol2
 
+/-! ### generic consequences of the block lemma for the loops `except StopIteration: raise LoadError` -/
+
+section generic
+variable {F G : Type} (pk : PeekKind) (loadOne : M F) (dump : G → List Line) (norm : G → F) (D : G → Prop)
+
+theorem loadMany_blocks_then_end (hne : ∀ g, dump g ≠ [])
+    (hstep : ∀ g, D g → ∀ rest ln first, ∃ s' ln',
+      runPeek pk first ⟨dump g ++ rest, ln⟩ = .go s' ∧ loadOne s' = .ok (norm g) ⟨rest, ln'⟩)
+    (gs : List G) (hgs : gs ≠ []) (hD : ∀ g ∈ gs, D g) (trail : List Line)
+    (hend : ∀ ln, runPeek pk false ⟨trail, ln⟩ = .eof) :
+    loadMany ⟨pk, [([.stop], .toLoadError)]⟩ loadOne (gs.flatMap dump ++ trail) = ⟨gs.map norm, .done⟩ := by
+  have htail : ∀ fuel ln, fuel ≥ trail.length + 1 →
+      runLoop ⟨pk, [([.stop], .toLoadError)]⟩ loadOne fuel false ⟨trail, ln⟩ = (([] : List F), GenFinal.ret) := by
+    intro fuel ln hf
+    cases fuel with
+    | zero => simp at hf
+    | succ fuel => simp [runLoop, hend ln]
+  obtain ⟨r, hr, he⟩ := runLoop_blocks ⟨pk, [([.stop], .toLoadError)]⟩ loadOne dump norm D hne hstep
+    trail (fun r => r = (([] : List F), GenFinal.ret)) htail gs _ 0 true hD (Or.inl hgs) (Nat.le_refl _)
+  subst hr
+  simpa [apiFinal] using loadMany_of_runLoop _ _ _ _ _ he
+
+theorem loadMany_blocks_then_bad (hne : ∀ g, dump g ≠ [])
+    (hstep : ∀ g, D g → ∀ rest ln first, ∃ s' ln',
+      runPeek pk first ⟨dump g ++ rest, ln⟩ = .go s' ∧ loadOne s' = .ok (norm g) ⟨rest, ln'⟩)
+    (gs : List G) (hD : ∀ g ∈ gs, D g) (bad : List Line)
+    (hpeek : ∀ ln first, runPeek pk first ⟨bad, ln⟩ = .go ⟨bad, ln⟩)
+    (hbad : ∀ ln, ∃ e s, loadOne ⟨bad, ln⟩ = .raise e s) :
+    ∃ ln, loadMany ⟨pk, [([.stop], .toLoadError)]⟩ loadOne (gs.flatMap dump ++ bad) =
+      ⟨gs.map norm, .loadError ln⟩ := by
+  have htail : ∀ fuel ln first, fuel ≥ bad.length + 1 →
+      EndsRaised (runLoop ⟨pk, [([.stop], .toLoadError)]⟩ loadOne fuel first ⟨bad, ln⟩) := by
+    intro fuel ln first hfu
+    obtain ⟨e, s, hst⟩ := hbad ln
+    cases fuel with
+    | zero => simp at hfu
+    | succ fuel =>
+      obtain ⟨e', he'⟩ := runLoop_raise pk loadOne fuel first _ _ _ _ (hpeek ln first) hst
+      exact endsRaised_of he'
+  obtain ⟨r, ⟨hr1, e, s, hr2⟩, he⟩ := runLoop_blocks_any ⟨pk, [([.stop], .toLoadError)]⟩ loadOne dump norm D hne hstep
+    bad EndsRaised htail gs _ 0 true hD (Nat.le_refl _)
+  refine ⟨s.lineno, ?_⟩
+  have := loadMany_of_runLoop _ _ _ _ _ he
+  simpa [hr1, hr2, apiFinal] using this
+end generic
+
+/-- `readN` on the complete block, then a short next block -/
+theorem readN_take_short {α : Type} (pa : Line → Option α) (fa : α → Line) (h : ∀ a, pa (fa a) = some a)
+    (as : List α) (k : Nat) (hk : k < as.length) (ln : Int) :
+    ∃ ln', readN pa as.length ⟨(as.map fa).take k, ln⟩ = (.raise .stop ⟨[], ln'⟩ : Res (List α)) := by
+  rw [← List.map_take]
+  exact readN_short pa fa h (as.take k) as.length ln (by simp; omega)
+
+/-! ### SDF: every cut -/
+section sdf
+variable {α β : Type} (fc : Nat → Nat → Line) (pa : Line → Option α) (fa : α → Line)
+  (pb : Line → Option β) (fb : β → Line)
+
+/-- the counts line is printed so that the reader's column cuts recover both numbers and the V2000 tag -/
+def SdfCountsOk (fc : Nat → Nat → Line) : Prop :=
+  ∀ na nb, pyInt ((fc na nb).take 3) = some (na : Int) ∧ pyInt (((fc na nb).drop 3).take 3) = some (nb : Int) ∧
+    lastWordUpper (fc na nb) = some ['V', '2', '0', '0', '0'] ∧ isBlank (fc na nb) = false
+
+/-- a written SDF record cut after `m` lines, `0 < m < all`: `load_one` raises (StopIteration inside the header,
+    the atom or the bond block; LoadError when `$$$$` is missing) -/
+theorem sdf_cut_raises (hc : SdfCountsOk fc) (ha : ∀ a, pa (fa a) = some a) (hb : ∀ b, pb (fb b) = some b)
+    (f : SdfFrame α β) (hnl : '\n' ∉ f.title) (m : Nat) (hm0 : 0 < m) (hm : m < (sdfDumpOne fc fa fb f).length)
+    (ln : Int) : ∃ e s, sdfLoadOne pa pb ⟨(sdfDumpOne fc fa fb f).take m, ln⟩ = .raise e s := by
+  obtain ⟨title, atoms, bonds⟩ := f
+  simp only at hnl
+  obtain ⟨h1, h2, h3, _⟩ := hc atoms.length bonds.length
+  have hT : splitNl (titleOr title) = [titleOr title] := splitNl_no_nl _ (titleOr_no_nl _ hnl)
+  have hshape : sdfDumpOne fc fa fb ⟨title, atoms, bonds⟩ = titleOr title :: [] :: [] :: fc atoms.length bonds.length ::
+      (atoms.map fa ++ (bonds.map fb ++ [['M', ' ', ' ', 'E', 'N', 'D'], sdfEnd])) := by
+    simp [sdfDumpOne, hT]
+  rw [hshape] at hm ⊢
+  have hneg1 : ¬ ((atoms.length : Int) < 0) := by omega
+  have hneg2 : ¬ ((bonds.length : Int) < 0) := by omega
+  have hme : (['M', ' ', ' ', 'E', 'N', 'D'] : Line) ≠ sdfEnd := by decide
+  rcases m with _ | _ | _ | _ | k
+  · omega
+  · exact ⟨.stop, ⟨[], ln + 1 + 1⟩, by simp [sdfLoadOne]⟩
+  · exact ⟨.stop, ⟨[], ln + 1 + 1 + 1⟩, by simp [sdfLoadOne]⟩
+  · exact ⟨.stop, ⟨[], ln + 1 + 1 + 1 + 1⟩, by simp [sdfLoadOne]⟩
+  · simp only [List.take_succ_cons]
+    simp only [List.length_cons, List.length_append, List.length_map, List.length_nil] at hm
+    by_cases hka : k < atoms.length
+    · -- inside the atom block
+      have ht : (atoms.map fa ++ (bonds.map fb ++ [['M', ' ', ' ', 'E', 'N', 'D'], sdfEnd])).take k =
+          (atoms.map fa).take k := List.take_append_of_le_length (by simp; omega)
+      obtain ⟨ln', hr⟩ := readN_take_short pa fa ha atoms k hka (ln + 1 + 1 + 1 + 1)
+      exact ⟨.stop, ⟨[], ln'⟩, by simp [sdfLoadOne, h1, h2, h3, hneg1, ht, hr]⟩
+    · have ht : (atoms.map fa ++ (bonds.map fb ++ [['M', ' ', ' ', 'E', 'N', 'D'], sdfEnd])).take k =
+          atoms.map fa ++ (bonds.map fb ++ [['M', ' ', ' ', 'E', 'N', 'D'], sdfEnd]).take (k - atoms.length) := by
+        rw [List.take_append, List.take_of_length_le (by simp; omega)]; simp
+      obtain ⟨i, hi⟩ : ∃ i, k = atoms.length + i := ⟨k - atoms.length, by omega⟩
+      subst hi
+      rw [ht, show atoms.length + i - atoms.length = i by omega]
+      by_cases hib : i < bonds.length
+      · have ht2 : (bonds.map fb ++ [['M', ' ', ' ', 'E', 'N', 'D'], sdfEnd]).take i = (bonds.map fb).take i :=
+          List.take_append_of_le_length (by simp; omega)
+        obtain ⟨ln1, hr1⟩ := readN_map pa fa ha atoms ((bonds.map fb).take i) (ln + 1 + 1 + 1 + 1)
+        obtain ⟨ln2, hr2⟩ := readN_take_short pb fb hb bonds i hib ln1
+        exact ⟨.stop, ⟨[], ln2⟩, by simp [sdfLoadOne, h1, h2, h3, hneg1, hneg2, ht2, hr1, hr2]⟩
+      · obtain ⟨j, hj⟩ : ∃ j, i = bonds.length + j := ⟨i - bonds.length, by omega⟩
+        subst hj
+        have ht2 : (bonds.map fb ++ [['M', ' ', ' ', 'E', 'N', 'D'], sdfEnd]).take (bonds.length + j) =
+            bonds.map fb ++ ([['M', ' ', ' ', 'E', 'N', 'D'], sdfEnd] : List Line).take j := by
+          rw [List.take_append, List.take_of_length_le (by simp)]; simp
+        have hj2 : j < 2 := by omega
+        rcases j with _ | _ | j
+        · obtain ⟨ln1, hr1⟩ := readN_map pa fa ha atoms (bonds.map fb ++ []) (ln + 1 + 1 + 1 + 1)
+          obtain ⟨ln2, hr2⟩ := readN_map pb fb hb bonds [] ln1
+          simp only [List.append_nil] at hr1 hr2
+          exact ⟨.loadError, ⟨[], ln2 + 1⟩, by
+            simp [sdfLoadOne, h1, h2, h3, hneg1, hneg2, ht2, hr1, hr2, sdfFindEndM, sdfFindEnd]⟩
+        · obtain ⟨ln1, hr1⟩ := readN_map pa fa ha atoms (bonds.map fb ++ [['M', ' ', ' ', 'E', 'N', 'D']])
+            (ln + 1 + 1 + 1 + 1)
+          obtain ⟨ln2, hr2⟩ := readN_map pb fb hb bonds [['M', ' ', ' ', 'E', 'N', 'D']] ln1
+          exact ⟨.loadError, ⟨[], ln2 + 1 + 1⟩, by
+            simp [sdfLoadOne, h1, h2, h3, hneg1, hneg2, ht2, hr1, hr2, sdfFindEndM, sdfFindEnd, hme]⟩
+        · omega
+end sdf
+/-! ### GRO and extended XYZ: an independent renderer of well-formed frames (the library has no writer) -/
+
+section gro
+variable {α : Type} (showNat : Nat → Line) (pt : Line → Bool) (pa : Line → Option α) (pc : Line → Bool)
+  (fa : α → Line) (box : Line)
+
+/-- what a load gives: the title is cut at the first comma when it carries a time stamp `t=` -/
+def groNorm (f : XyzFrame α) : XyzFrame α := { f with title := groTitle f.title }
+
+theorem gro_render_ne (f : XyzFrame α) : groRender showNat fa box f ≠ [] := by simp [groRender]
+
+theorem gro_loadOne_render (hs : ∀ n, pyInt (showNat n) = some (n : Int)) (ha : ∀ a, pa (fa a) = some a)
+    (hbox : pc box = true) (f : XyzFrame α) (hpt : pt f.title = true) (rest : List Line) (ln : Int) :
+    ∃ ln', groLoadOne pt pa pc ⟨groRender showNat fa box f ++ rest, ln⟩ = .ok (groNorm f) ⟨rest, ln'⟩ := by
+  obtain ⟨ln', hr⟩ := readN_map pa fa ha f.atoms (box :: rest) (ln + 1 + 1)
+  have hneg : ¬ ((f.atoms.length : Int) < 0) := by omega
+  exact ⟨ln' + 1, by simp [groRender, groLoadOne, hpt, hs, hneg, hr, hbox, groNorm]⟩
+
+theorem gro_step (hs : ∀ n, pyInt (showNat n) = some (n : Int)) (hb : ∀ n, isBlank (showNat n) = false)
+    (ha : ∀ a, pa (fa a) = some a) (hbox : pc box = true) (f : XyzFrame α) (hpt : pt f.title = true)
+    (rest : List Line) (ln : Int) (first : Bool) :
+    ∃ s' ln', runPeek .peekPushAll first ⟨groRender showNat fa box f ++ rest, ln⟩ = .go s' ∧
+      groLoadOne pt pa pc s' = .ok (groNorm f) ⟨rest, ln'⟩ := by
+  obtain ⟨ln', hl⟩ := gro_loadOne_render showNat pt pa pc fa box hs ha hbox f hpt rest ln
+  refine ⟨_, ln', peekPushAll_go _ first ⟨showNat f.atoms.length, ?_, hb _⟩, hl⟩
+  simp [groRender]
+
+/-- a rendered GRO frame cut after `m` lines, `0 < m < all`: StopIteration in `load_one` -/
+theorem gro_cut_stops (hs : ∀ n, pyInt (showNat n) = some (n : Int)) (ha : ∀ a, pa (fa a) = some a)
+    (f : XyzFrame α) (hpt : pt f.title = true) (m : Nat) (hm0 : 0 < m)
+    (hm : m < (groRender showNat fa box f).length) (ln : Int) :
+    ∃ s, groLoadOne pt pa pc ⟨(groRender showNat fa box f).take m, ln⟩ = .raise .stop s := by
+  have hneg : ¬ ((f.atoms.length : Int) < 0) := by omega
+  simp only [groRender, List.length_cons, List.length_append, List.length_map, List.length_nil] at hm
+  rcases m with _ | _ | k
+  · omega
+  · exact ⟨⟨[], ln + 1 + 1⟩, by simp [groRender, groLoadOne, hpt]⟩
+  · simp only [groRender, List.take_succ_cons]
+    by_cases hk : k < f.atoms.length
+    · have ht : (f.atoms.map fa ++ [box]).take k = (f.atoms.map fa).take k :=
+        List.take_append_of_le_length (by simp; omega)
+      obtain ⟨ln', hr⟩ := readN_take_short pa fa ha f.atoms k hk (ln + 1 + 1)
+      exact ⟨⟨[], ln'⟩, by simp [groLoadOne, hpt, hs, hneg, ht, hr]⟩
+    · have hk' : k = f.atoms.length := by omega
+      have ht : (f.atoms.map fa ++ [box]).take k = f.atoms.map fa := by
+        rw [List.take_append, List.take_of_length_le (by simp; omega), hk']; simp
+      obtain ⟨ln', hr⟩ := readN_map pa fa ha f.atoms [] (ln + 1 + 1)
+      simp only [List.append_nil] at hr
+      exact ⟨⟨[], ln' + 1⟩, by simp [groLoadOne, hpt, hs, hneg, ht, hr]⟩
+end gro
+
+section ext
+variable {α : Type} (showNat : Nat → Line) (pt : Line → Bool) (pa : Line → Option α) (fa : α → Line)
+
+/-- an extended-XYZ frame: count, title line (`key=value` pairs, `Properties=...`), atom lines -/
+def extRender (f : XyzFrame α) : List Line := showNat f.atoms.length :: f.title :: f.atoms.map fa
+
+def extNorm (f : XyzFrame α) : XyzFrame α := { f with title := strip f.title }
+
+theorem ext_render_ne (f : XyzFrame α) : extRender showNat fa f ≠ [] := by simp [extRender]
+
+theorem ext_loadOne_render (hs : ∀ n, pyInt (showNat n) = some (n : Int)) (ha : ∀ a, pa (fa a) = some a)
+    (f : XyzFrame α) (hpt : pt f.title = true) (rest : List Line) (ln : Int) :
+    ∃ ln', extLoadOne pt pa ⟨extRender showNat fa f ++ rest, ln⟩ = .ok (extNorm f) ⟨rest, ln'⟩ := by
+  obtain ⟨ln', hr⟩ := readN_map pa fa ha f.atoms rest (ln + 1 + 1)
+  have hneg : ¬ ((f.atoms.length : Int) < 0) := by omega
+  exact ⟨ln', by simp [extRender, extLoadOne, xyzLoadOne, hpt, hs, hneg, hr, extNorm]⟩
+
+theorem ext_step (hs : ∀ n, pyInt (showNat n) = some (n : Int)) (hb : ∀ n, isBlank (showNat n) = false)
+    (ha : ∀ a, pa (fa a) = some a) (f : XyzFrame α) (hpt : pt f.title = true)
+    (rest : List Line) (ln : Int) (first : Bool) :
+    ∃ s' ln', runPeek .skipBlank first ⟨extRender showNat fa f ++ rest, ln⟩ = .go s' ∧
+      extLoadOne pt pa s' = .ok (extNorm f) ⟨rest, ln'⟩ := by
+  obtain ⟨ln', hl⟩ := ext_loadOne_render showNat pt pa fa hs ha f hpt rest ln
+  exact ⟨_, ln', skipBlank_go _ _ _ _ (hb _), hl⟩
+
+theorem ext_cut_stops (hs : ∀ n, pyInt (showNat n) = some (n : Int)) (ha : ∀ a, pa (fa a) = some a)
+    (f : XyzFrame α) (hpt : pt f.title = true) (m : Nat) (hm0 : 0 < m)
+    (hm : m < (extRender showNat fa f).length) (ln : Int) :
+    ∃ s, extLoadOne pt pa ⟨(extRender showNat fa f).take m, ln⟩ = .raise .stop s := by
+  have hneg : ¬ ((f.atoms.length : Int) < 0) := by omega
+  simp only [extRender, List.length_cons, List.length_map] at hm
+  rcases m with _ | _ | k
+  · omega
+  · exact ⟨⟨[], ln + 1 + 1⟩, by simp [extRender, extLoadOne]⟩
+  · simp only [extRender, List.take_succ_cons]
+    obtain ⟨ln', hr⟩ := readN_take_short pa fa ha f.atoms k (by omega) (ln + 1 + 1)
+    exact ⟨⟨[], ln'⟩, by simp [extLoadOne, xyzLoadOne, hpt, hs, hneg, hr]⟩
+end ext
 end Iodata.Traj
